@@ -40,6 +40,7 @@ type ruleCtx struct {
 	st    *Stats
 	out   []Violation
 	ante  map[string]bool // rules whose antecedent was true in this run
+	retag map[string]string // property id -> rule id under which its failures are reported
 }
 
 func (rc *ruleCtx) on(prop string) bool { return rc.props[prop] }
@@ -50,6 +51,11 @@ func (rc *ruleCtx) anteTrue(rule string) {
 }
 
 func (rc *ruleCtx) fail(rule, sig, msg string) {
+	if to, ok := rc.retag[rule[:3]]; ok {
+		sig = rule + "/" + sig
+		msg = "(" + rule + ") " + msg
+		rule = to
+	}
 	rc.out = append(rc.out, Violation{Prop: rule[:3], Rule: rule, Sig: sig, Msg: msg})
 }
 
@@ -100,7 +106,7 @@ func (sc *RevScenario) evalRevCall(rc *ruleCtx, obs *RevObs, co *CallObs) {
 				rc.fail("C12.R4", "defect="+chainDefectNames[w.ChainDefect], fmt.Sprintf("invalid chain (%s) via %s: want InvalidChainError and nil results, got err=%v results=%d", chainDefectNames[w.ChainDefect], entryNames[w.Entry], co.Err, len(co.Results)))
 			}
 			for _, x := range obs.Net.All() {
-				if x.Rec.Begun && x.Rec.CallerID == w.callerKey() && strings.HasSuffix(hostOf(x.URL), fmt.Sprintf(".w%d.sim", w.ID)) {
+				if x.Rec.Begun && x.Rec.CallerID == w.callerKeyOf(co.Rep) && strings.HasSuffix(hostOf(x.URL), fmt.Sprintf(".w%d.sim", w.ID)) {
 					rc.fail("C12.R4", "request_on_invalid_chain", "invalid chain but a request was sent to "+x.URL)
 					break
 				}
@@ -145,12 +151,12 @@ func (sc *RevScenario) evalRevCall(rc *ruleCtx, obs *RevObs, co *CallObs) {
 		rc.anteTrue("C11.R7")
 		for _, cp := range w.Certs {
 			for _, s := range cp.CRL {
-				if s.XBase[0].Rec.Begun {
+				if s.XBase[co.Rep].Rec.Begun {
 					rc.fail("C11.R7", "crl_contacted", "ocsp.CheckStatus contacted CRL URL "+s.URL)
 				}
 				for _, xd := range s.XDelta {
-					if xd[0].Rec.Begun {
-						rc.fail("C11.R7", "crl_contacted", "ocsp.CheckStatus contacted delta CRL URL "+xd[0].URL)
+					if xd[co.Rep].Rec.Begun {
+						rc.fail("C11.R7", "crl_contacted", "ocsp.CheckStatus contacted delta CRL URL "+xd[co.Rep].URL)
 					}
 				}
 			}
